@@ -190,6 +190,37 @@ Definition t1_log_ok (c : Z) (l : list step) (log : list Z) : bool :=
 Definition t1_complete_ok (c : Z) (l : list step) (log : list Z) : bool :=
   negb (no_faults c l) || list_eqb Z.eqb log (sent c l).
 
+(* T1 completeness after a recovery.  [split_last_fault c l] = (a, b) with l = a ++ b where
+   b is the longest suffix without a fault step of c (so a is empty or ends with c's last
+   fault step).  If that last fault step is a SocketRecovers and c is connected at that
+   point, the socket of c works for the whole of b: once the loop has drained, c's log must
+   END with every event emitted in b. *)
+Fixpoint split_last_fault (c : Z) (l : list step) : list step * list step :=
+  match l with
+  | [] => ([], [])
+  | x :: t =>
+      let '(a, b) := split_last_fault c t in
+      match a with
+      | [] => if is_fault_of c x then ([x], b) else ([], x :: b)
+      | _ => (x :: a, b)
+      end
+  end.
+
+Definition is_recover_of (c : Z) (x : step) : bool :=
+  match x with SocketRecovers d => d =? c | _ => false end.
+
+Definition is_suffixb (x log : list Z) : bool :=
+  (length x <=? length log)%nat && list_eqb Z.eqb (skipn (length log - length x) log) x.
+
+Definition t1_recovered_ok (c : Z) (l : list step) (log : list Z) : bool :=
+  let '(a, b) := split_last_fault c l in
+  match rev a with
+  | x :: _ =>
+      if is_recover_of c x && sp_conn (spec_from c spec_init a)
+      then is_suffixb (emitted b) log else true
+  | [] => true
+  end.
+
 (* ------------------------------------------------------------------------
    The view of a single client: a small machine over the client's OWN history.  The global
    run projects onto it (Proofs_Broadcast.view_refines): what c receives is determined by
